@@ -195,3 +195,49 @@ class TableGen:
                 out += self.content_item(depth, max_depth)
             out += b'\x01'
         return out
+
+
+def _tok(dump, lang, name):
+    rows = dump['tables'][str(lang['tags'])]['rows']
+    for r in rows:
+        if bytes.fromhex(r[0]) == name:
+            return r[1], r[2]
+    raise KeyError(name)
+
+
+def syncml_doc(dump, rng, inner_docs):
+    """SyncML documents exercising the Data/Meta/Type machinery: vObject payloads in several
+    content items (CDATA), embedded DevInf WBXML documents, the Add/Replace heuristic."""
+    lid = rng.choice([2101, 2201])
+    lang = next(l for l in dump['langs'] if l['id'] == lid)
+    def t(name, content=True, page_state=[0]):
+        p, k = _tok(dump, lang, name)
+        pre = b''
+        if p != page_state[0]:
+            pre = b'\x00' + bytes([p]); page_state[0] = p
+        return pre + bytes([k | (0x40 if content else 0)])
+    def s(b):
+        return b'\x03' + b.replace(b'\x00', b'') + b'\x00'
+    mime = rng.choice([b'text/x-vcard', b'text/x-vcalendar', b'text/clear', b'text/directory;profile=vCard',
+                       b'application/vnd.syncml-devinf+wbxml', b'application/vnd.syncml.dmtnds+wbxml',
+                       b'application/vnd.syncml-devinf+xml', b'text/plain'])
+    if mime.endswith(b'+wbxml'):
+        inner = rng.choice(inner_docs)
+        if rng.random() < 0.2:
+            inner = mutate(rng, inner)
+        payload = b'\xC3' + mb(len(inner)) + inner
+    else:
+        chunks = rng.choice([[b'BEGIN:VCARD\r\nN:Doe;John\r\nEND:VCARD\r\n'], [b'BEGIN:VCARD', b'\n', b'END:VCARD'], [b'a]]>b', b'<x>&'], [b'\n'], [b' ', b'x ']])
+        payload = b''.join(s(c) if rng.random() < 0.7 else (b'\xC3' + mb(len(c)) + c) for c in chunks)
+    cmd = rng.choice([b'Add', b'Replace', b'Results', b'Put'])
+    meta_where = rng.choice(['item', 'cmd', 'none'])
+    meta = t(b'Meta') + t(b'Type') + s(mime) + b'\x01' + b'\x01'
+    body = t(b'SyncML') + t(b'SyncBody') + t(cmd) + t(b'CmdID') + s(b'1') + b'\x01'
+    if meta_where == 'cmd':
+        body += meta
+    body += t(b'Item')
+    if meta_where == 'item':
+        body += meta
+    body += t(b'Data') + payload + b'\x01' + b'\x01' + b'\x01' + b'\x01' + b'\x01'
+    pub = lang['pub']['wbxml']
+    return bytes([2]) + mb(pub) + mb(106) + mb(0) + body
